@@ -67,7 +67,7 @@ def scenarios(ctx):
                         w["opts"] = {"ped": True, "tag": rng.choice(["PS", "HP"]), "genetic_haplotyping": rng.random() < 0.8}
                         scs.append({"world": w})
     # (b) random
-    for i in range(600 if ctx.quick else 15000):
+    for i in range(1200 if ctx.quick else 15000):
         quartet = rng.random() < 0.4
         ped = [["s1", "s2", "s3"]] + ([["s1", "s2", "s4"]] if quartet else [])
         if rng.random() < 0.5:
